@@ -225,7 +225,7 @@ theorem lines_build_eq_layout (x : Sequence) (h : covered x = true) :
     simp only [sortedEntries, List.map_map, Function.comp_def]
     exact header_glue _ _ _ _ _ _ _ _
   rw [build_lines' x f, hhdr, featsLines_eq _ hftype, origin_eq hne, list_glue]
-  rw [layout_plain (toRec x) (polyLayout x) rfl rfl rfl rfl rfl rfl]
+  rw [layout_plain (toRec x) (polyLayout x) rfl rfl rfl rfl rfl rfl rfl]
   rw [← locusLine_eq x, k1, k2, k3, k4, k5, k6, k7, k8, k9]
   rfl
 
@@ -238,7 +238,7 @@ theorem parse_build_covered (x : Sequence) (o : MapOrders) (h : covered x = true
   rw [build_order_irrelevant x o MapOrders.id]
   unfold Genbank.parse
   rw [show (['\n'] : Str) = ['\n'] from rfl, split_nl_eq_lines, lines_build_eq_layout x h]
-  have := Lemmas.Genbank.parseLoop_layout (toRec x) (polyLayout x) [] hwf (by simp)
+  have := Lemmas.Genbank.parseLoop_layout (toRec x) (polyLayout x) [] hwf (by simp) rfl
   simpa using this
 
 /-- … and that is the record the writer was given -/
